@@ -1179,8 +1179,9 @@ func (w *world) runSchedule(gets []*getSpec, o ctlOpts) bool {
 				_, _ = w.be.Walk(func(k []byte, _ interface{}, exp time.Time) error {
 					switch old := before[string(k)]; {
 					case old != 0 && old < nowNs:
-						if exp.UnixNano() == nowNs {
-							w.extExpired++
+						w.extExpired++
+						if exp.UnixNano() != nowNs {
+							w.extExpiredSlack++ // visited but left alone: may or may not count
 						}
 					case old == nowNs:
 						w.extExpired++
